@@ -25,6 +25,8 @@ mod c11;
 #[cfg(feature = "full")]
 mod e2e;
 #[cfg(feature = "full")]
+mod e2e2;
+#[cfg(feature = "full")]
 mod junos;
 #[cfg(feature = "full")]
 mod peers;
@@ -59,6 +61,20 @@ fn main() {
         "c03-l1" => agentl1::run_histories(&cfg, agentl1::Prop::C03),
         #[cfg(feature = "full")]
         "c04" => c04::run(&cfg),
+        #[cfg(feature = "full")]
+        "c15" => e2e2::run_c15(&cfg),
+        #[cfg(feature = "full")]
+        "c19" => e2e2::run_c19(&cfg),
+        #[cfg(feature = "full")]
+        "c20-agent" => e2e2::run_c20_agent(&cfg),
+        #[cfg(feature = "full")]
+        "c01-l2" => e2e2::run_l2(&cfg, e2e2::L2::C01),
+        #[cfg(feature = "full")]
+        "c02-l2" => e2e2::run_l2(&cfg, e2e2::L2::C02),
+        #[cfg(feature = "full")]
+        "c03-l2" => e2e2::run_l2(&cfg, e2e2::L2::C03),
+        #[cfg(feature = "full")]
+        "c11-l2" => e2e2::run_l2(&cfg, e2e2::L2::C11),
         #[cfg(feature = "full")]
         "c11" => c11::run_c11(&cfg),
         #[cfg(feature = "full")]
